@@ -10,6 +10,7 @@ import (
 	"errors"
 	"fmt"
 	"math/big"
+	"sort"
 	"strings"
 	"time"
 
@@ -474,6 +475,7 @@ func (h *Hist) Exec(op Op) Op {
 			}
 			return false, nil
 		}))
+		valsPre := h.valRecs()
 		err := c.NextBlockAfter(time.Duration(op.Dt))
 		h.cur = nil
 		op.Res = res(err)
@@ -482,7 +484,11 @@ func (h *Hist) Exec(op Op) Op {
 			return op
 		}
 		post := h.snap()
-		h.cw.Add(pre, fmt.Sprintf("CEndBlock %s %s %s %s", z(ns(t)), z(post.Now), lib.List(burns), lib.List(converts)), "OOk", post, h.cfg)
+		vs, changed := vsideOf(valsPre, h.valRecs())
+		if changed {
+			h.rep.Count("valset-change-block")
+		}
+		h.cw.Add(pre, fmt.Sprintf("CEndBlock %s %s %s %s %s", z(ns(t)), z(post.Now), lib.List(burns), lib.List(converts), vs), "OOk", post, h.cfg)
 		h.mon.AfterBlock(op, pre, post, ns(t))
 	case "migrate":
 		pre := h.snap()
@@ -754,4 +760,63 @@ func allowLocalhostClient(state []byte) []byte {
 	out, err := json.Marshal(m)
 	lib.Must(err)
 	return out
+}
+
+// valRec: what the staking end blocker's validator part is read from — the validator RECORDS (status, tokens,
+// unbonding ids), not the pool balance or the unbonding-id index that the correspondence compares.
+type valRec struct {
+	bonded bool
+	tokens sdkmath.Int
+	ids    []uint64
+}
+
+func (h *Hist) valRecs() map[int64]valRec {
+	vals, err := h.c.App.StakingKeeper.GetAllValidators(h.c.Ctx)
+	lib.Must(err)
+	m := map[int64]valRec{}
+	for _, v := range vals {
+		m[h.ids.Bech(v.OperatorAddress)] = valRec{bonded: v.IsBonded(), tokens: v.Tokens, ids: append([]uint64{}, v.UnbondingIds...)}
+	}
+	return m
+}
+
+// vsideOf renders the model's `vside` input of an end-block step: net tokens moved into the not-bonded pool by
+// validators leaving (+) / entering (-) the active set, unbonding ids registered for validators, ids deleted.
+func vsideOf(pre, post map[int64]valRec) (string, bool) {
+	pool := sdkmath.ZeroInt()
+	var sets, dels []string
+	has := func(xs []uint64, x uint64) bool {
+		for _, y := range xs {
+			if y == x {
+				return true
+			}
+		}
+		return false
+	}
+	for id, q := range post {
+		p := pre[id] // a validator created in this block was not bonded before
+		switch {
+		case p.bonded && !q.bonded:
+			pool = pool.Add(q.tokens)
+		case !p.bonded && q.bonded:
+			pool = pool.Sub(q.tokens)
+		}
+		for _, u := range q.ids {
+			if !has(p.ids, u) {
+				sets = append(sets, "("+z(int64(u))+", "+z(id)+")")
+			}
+		}
+	}
+	for id, p := range pre {
+		q := post[id] // a validator removed in this block has no ids left
+		for _, u := range p.ids {
+			if !has(q.ids, u) {
+				dels = append(dels, z(int64(u)))
+			}
+		}
+	}
+	sort.Strings(sets)
+	sort.Strings(dels)
+	changed := !pool.IsZero() || len(sets) > 0 || len(dels) > 0
+	return "(VS " + zb(pool.BigInt()) + " " + lib.List(sets) + " " + lib.List(dels) + ")", changed
 }
